@@ -68,6 +68,11 @@ def crystal_library():
     L['tric-abc'] = lambda: _c(a([[0.84, 0.1, 0.], [0., 1.6, 0.1], [0., 0., 2.5]]),
                                [[a([0., 0., 0.]), a([0.178571428571, 0.5, -0.02])], [a([-0.2964285714, 0.53375, -0.02135])], [a([0.4, 0.6, 0.5])]],
                                noreduce=True)
+    # chiral orthorhombic crystal: point group 222 (three 2-fold axes, no mirror, no inversion); mobile site (chem 1) at the origin
+    L['p222'] = lambda: _c(np.diag([1., 1.25, 1.5]), [[a([0.125, 0.25, 0.375]), a([0.875, 0.75, 0.375]), a([0.875, 0.25, 0.625]), a([0.125, 0.75, 0.625])],
+                                                       [a([0., 0., 0.])]], noreduce=True)
+    L['oblique-c1'] = lambda: _c(a([[1., 0.25], [0., 1.5]]), [[a([0.25, 0.125]), a([0.625, 0.5])], [a([0.1, 0.7])]], noreduce=True)
+    L['tric-c1'] = lambda: _c(a([[1., 0.3, 0.2], [0., 1.1, 0.4], [0., 0., 0.9]]), [[a([0.1, 0.2, 0.3])], [a([0.6, 0.1, 0.55])]], noreduce=True)
     L['fcc-nosym'] = lambda: _c(0.5 * a([[0., 1., 1.], [1., 0., 1.], [1., 1., 0.]]), [a([0., 0., 0.])], NOSYM=True)
     L['hcp-nosym'] = lambda: _c(a([[0.5, 0.5, 0.], [-np.sqrt(0.75), np.sqrt(0.75), 0.], [0., 0., np.sqrt(8. / 3.)]]),
                                 [a([1. / 3, 2. / 3, 0.25]), a([2. / 3, 1. / 3, 0.75])], NOSYM=True)
